@@ -120,6 +120,44 @@ Theorem C19_resumed_equals_sync : forall fs chain live per hi rev naggs limit co
 Proof. exact resumed_equals_sync. Qed.
 Print Assumptions C19_resumed_equals_sync.
 
+(* FetchSearchResult while the worker is running: the request state (Done) and the list of .qpr files
+   are ONE snapshot s1 of the directory (s2 = what the directory became meanwhile, arbitrary). Hence an
+   answer that says Done comes from a finished directory and equals the synchronous search. *)
+Theorem C19_fetch_concurrent_done : forall fs per s1 s2 hi rev naggs limit,
+  safe fs s1 -> dir_sorted s1 -> NoDup fs ->
+  let qs := map (fun f => qpr_of per (CQpr f)) fs in
+  Forall (fun q => aggsok naggs (q_aggs q)) qs ->
+  let r := fetch_concurrent hi rev per s1 s2 in
+  r = (is_done s1, fetch_dir hi rev per s1)
+  /\ (fst r = true ->
+      let sy := sync_search naggs limit hi rev qs in
+      final fs s1 /\ take limit (q_ids (snd r)) = q_ids sy /\ q_hist (snd r) = q_hist sy
+      /\ aggs_equiv (q_aggs (snd r)) (q_aggs sy)).
+Proof. exact fetch_concurrent_done. Qed.
+Print Assumptions C19_fetch_concurrent_done.
+
+(* reading Done a second time after the files were merged is refuted *)
+Example C19_fetch_two_reads_refuted :
+  let per := [(0, w_p0); (1, w_p1)]%N in
+  let s1 : dir := [(0, CInfo false); (2, CQpr 0)]%N in
+  let s2 := apply_ops s1 (resume_ops s1 [0; 1]%N) in
+  fetch_two_reads 0 false per s1 s2 = (true, w_p0)
+  /\ q_ids (fetch_dir 0 false per s2) = [(1012, 2); (1005, 1)]%N
+  /\ fetch_concurrent 0 false per s1 s2 = (false, w_p0).
+Proof. exact two_reads_refuted. Qed.
+
+(* mustWriteFileAtomic = create-TRUNCATE, write, fsync, rename, fsync dir (C19_resume_crash_safe covers
+   crash variant 3: every leftover temporary file longer than any later payload). Without the
+   truncation the property is refuted: *)
+Example C19_write_without_truncate_refuted :
+  let per := [(0, w_p0)]%N in
+  let s : dir := [(0, CInfo false); (3, CLong)]%N in
+  let bad := apply_ops_notrunc s (resume_ops s [0]%N) in
+  let good := apply_ops s (resume_ops s [0]%N) in
+  nm_find 2%N bad = Some CLong /\ is_done bad = true /\ q_ids (fetch_dir 0 false per bad) = []
+  /\ nm_find 2%N good = Some (CQpr 0) /\ q_ids (fetch_dir 0 false per good) = [(1005, 1)]%N.
+Proof. exact notrunc_refuted. Qed.
+
 (* proxy level (proxy/search/async.go FetchAsyncSearchResult): the proxy reports Done exactly when
    every shard that knows the request is done (shards none of whose replicas knows it are left out) *)
 Theorem C19_proxy_done_iff : forall naggs size hi rev shards d q,
